@@ -18,13 +18,14 @@ M == <<109>>
 G == <<103>>
 R == <<114>>
 KK == <<107>>
+LL == <<108>>
 a == EVar(A)
 b == EVar(Bv)
 cc == EVar(Cv)
 I(n) == EInt(n)
 Idx0(e) == EIndex(e, I(0))
 
-ListOps == 1 .. 20
+ListOps == 1 .. 24
 ListOp(o) ==
     CASE o = 1  -> SAssign(b, a)                                   \* alias
       [] o = 2  -> SAssign(cc, a)
@@ -46,8 +47,12 @@ ListOp(o) ==
       [] o = 18 -> SAssign(Idx0(Idx0(cc)), I(5))
       [] o = 19 -> SAssign(b, ECall(EVar(R), <<>>))                 \* returned
       [] o = 20 -> SAssign(ERIndex(b, I(0), I(1)), a)               \* element-wise copy from a
+      [] o = 21 -> SOpAssign(Idx0(cc), "+", EList(<<I(5)>>))         \* element += : a fresh list in the element
+      [] o = 22 -> SExpr(ECallOf(EVar(<<102, 114>>), <<Spread(a)>>))  \* spread into a rest parameter (fresh list)
+      [] o = 23 -> SOpAssign(a, "+", EList(<<>>))                    \* a = a + [] : fresh even when nothing is added
+      [] o = 24 -> SAssign(cc, EListOf(<<Item(b), Spread(a)>>))
 
-ObjOps == 1 .. 12
+ObjOps == 1 .. 18
 Kp(e) == EProp(e, KK)
 ObjOp(o) ==
     CASE o = 1  -> SAssign(b, a)
@@ -62,14 +67,21 @@ ObjOp(o) ==
       [] o = 10 -> SExpr(ECall(EVar(G), <<>>))
       [] o = 11 -> SAssign(cc, EObj(<<Pair(EStr(KK), a)>>))
       [] o = 12 -> SAssign(Kp(Kp(cc)), I(5))
+      [] o = 13 -> SAssign(cc, EProp(a, LL))                         \* alias of the list held in a property
+      [] o = 14 -> SOpAssign(EProp(a, LL), "+", EList(<<I(5)>>))     \* property += : a fresh list in the property
+      [] o = 15 -> SOpAssign(EIndex(a, EStr(LL)), "+", EList(<<I(6)>>))
+      [] o = 16 -> SAssign(Idx0(cc), I(7))
+      [] o = 17 -> SAssign(EProp(b, LL), EProp(a, LL))               \* the same list in two objects
+      [] o = 18 -> SOpAssign(EProp(b, LL), "+", EList(<<I(8)>>))
 
 PreList ==
     <<SDecl(a, EList(<<I(1), I(2)>>)), SDecl(b, EList(<<I(3)>>)), SDecl(cc, EList(<<I(4)>>)),
       SFn(M, <<EVar(Xp)>>, FALSE, <<SAssign(Idx0(EVar(Xp)), I(70)), SAssign(EVar(Xp), EList(<<>>))>>),
       SFn(G, <<>>, FALSE, <<SAssign(Idx0(a), I(60))>>),
-      SFn(R, <<>>, FALSE, <<SReturn(a)>>)>>
+      SFn(R, <<>>, FALSE, <<SReturn(a)>>),
+      SFn(<<102, 114>>, <<EVar(<<114, 115>>)>>, TRUE, <<SAssign(Idx0(EVar(<<114, 115>>)), I(50)), SPrint(EVar(<<114, 115>>))>>)>>
 PreObj ==
-    <<SDecl(a, EObj(<<Pair(EStr(KK), I(1))>>)), SDecl(b, EObj(<<Pair(EStr(KK), I(3))>>)),
+    <<SDecl(a, EObj(<<Pair(EStr(KK), I(1)), Pair(EStr(LL), EList(<<I(1)>>))>>)), SDecl(b, EObj(<<Pair(EStr(KK), I(3))>>)),
       SDecl(cc, EObj(<<Pair(EStr(KK), I(4))>>)),
       SFn(M, <<EVar(Xp)>>, FALSE, <<SAssign(Kp(EVar(Xp)), I(70)), SAssign(EVar(Xp), EObj(<<>>))>>),
       SFn(G, <<>>, FALSE, <<SAssign(Kp(a), I(60))>>)>>
@@ -104,12 +116,13 @@ C05ProgOf(p) ==
             PreObj \o (IF Len(p[2]) <= 2
                        THEN Concat([i \in 1 .. Len(p[2]) |-> <<ObjOp(p[2][i])>> \o Observe])
                        ELSE [i \in 1 .. Len(p[2]) |-> ObjOp(p[2][i])] \o Observe)
+            \o <<SPrint(EBin("===", EProp(a, LL), cc))>>
       [] p[1] = "prims" -> Prims
 
 \* `===` is true exactly between aliases: at every identity comparison the
 \* answer is "same cell" (IdentityIsCell)
 IdentityIsCellStep ==
-    (c.m = "V" /\ HasTop("binr") /\ Top.e.op = "===" /\ c'.m = "V") =>
+    (c.m = "V" /\ HasTop("binr") /\ Top.e.op = "===" /\ status'.k = "running" /\ c'.m = "V") =>
         (c'.s.v.b <=> (Top.lv.id = c.s.v.id))
 IdentityIsCell == [][IdentityIsCellStep]_mcvars
 =============================================================================
